@@ -596,6 +596,16 @@ func ruleR8_11(w *World, r *Report) {
 		if _, isW := wraps[fn]; isW {
 			continue
 		}
+		// one obligation per entry point: a per-line helper shared by several of them answers for each
+		var names []string
+		for _, ce := range certEntries(w, rup) {
+			if ce.core == fn {
+				names = append(names, ce.name(w))
+			}
+		}
+		if len(names) == 0 {
+			names = []string{w.FuncName(fn)}
+		}
 		for _, ci := range callsIn(fn) {
 			rc, ok := ci.(*ssa.Call)
 			if !ok || !inLoop(fn, rc.Block()) {
@@ -606,12 +616,13 @@ func ruleR8_11(w *World, r *Report) {
 			}
 			if _, viaW := wraps[rc.Call.StaticCallee()]; viaW {
 				// the wrapper parses and tests in one step: every line handed to it is tested
-				n++
-				r.OK("R8.11", w.FuncName(fn)+" tests every line it parsed", w.InstrPos(rc), "lines are parsed and tested in one step by "+w.FuncName(rc.Call.StaticCallee()))
+				for _, nm := range names {
+					n++
+					r.OK("R8.11", nm+" tests every line it parsed", w.InstrPos(rc), "lines are parsed and tested in one step by "+w.FuncName(rc.Call.StaticCallee()))
+				}
 				continue
 			}
-			n++
-			key := w.FuncName(fn) + " tests every line it parsed"
+			n += len(names)
 			// the clause tested: its definition starts the obligation
 			clause := rc.Call.Args[len(rc.Call.Args)-1]
 			def, _ := clause.(ssa.Instruction)
@@ -625,7 +636,9 @@ func ruleR8_11(w *World, r *Report) {
 				}
 			}
 			if def == nil || header == nil {
-				r.Unk("R8.11", key, w.InstrPos(rc), "the parsed line or the loop was not identified")
+				for _, nm := range names {
+					r.Unk("R8.11", nm+" tests every line it parsed", w.InstrPos(rc), "the parsed line or the loop was not identified")
+				}
 				continue
 			}
 			body := loopBlocks(fn, header)
@@ -668,8 +681,10 @@ func ruleR8_11(w *World, r *Report) {
 			if def.Block() != rc.Block() {
 				dfs(def.Block())
 			}
-			r.Check(skip == "", "R8.11", key, w.InstrPos(rc), "every path from the parse of a line to the next line passes the test",
-				"a line that was parsed can be passed over (from "+skip+") without the RUP test: a line that does not follow from the problem (the negation of one of its unit clauses) is accepted, and a satisfiable problem gets a valid certificate")
+			for _, nm := range names {
+				r.Check(skip == "", "R8.11", nm+" tests every line it parsed", w.InstrPos(rc), "every path from the parse of a line to the next line passes the test",
+					"a line that was parsed can be passed over (from "+skip+") without the RUP test: a line that does not follow from the problem (the negation of one of its unit clauses) is accepted, and a satisfiable problem gets a valid certificate")
+			}
 		}
 	}
 	if n == 0 {
